@@ -28,6 +28,10 @@ COMMON = ["EMFILE", "ENOMEM", "EINTR", "EACCES"]
 # errnos the code under test branches on (would-block paths of the socket helpers)
 BRANCHY = ["EAGAIN", "EINPROGRESS"]
 
+# odd *successful* answers that select other arms of the code (end of file, short transfer, time-out)
+VALUE_FAULTS = {"read": [0, 1, 3], "write": [0, 1], "copy_file_range": [0], "ppoll": [0], "epoll_pwait": [0],
+                "getdents64": [0], "wait4": [0], "readv": [0], "recvmsg": [0], "sendmsg": [0]}
+
 CREATE1 = {"open", "openat", "openat2", "creat", "socket", "accept", "accept4", "dup", "epoll_create", "epoll_create1",
            "eventfd", "eventfd2", "timerfd_create", "signalfd", "signalfd4", "memfd_create", "io_uring_setup",
            "inotify_init", "inotify_init1", "userfaultfd", "perf_event_open", "pidfd_open", "fanotify_init", "memfd_secret"}
@@ -171,11 +175,13 @@ def scenarios(bindir):
     return [l.strip() for l in p.stdout.splitlines() if l.strip()]
 
 
-def run_one(chk, bindir, scen, k=None, errno=None, tag="dry"):
+def run_one(chk, bindir, scen, k=None, errno=None, tag="dry", value=None):
     root = tempfile.mkdtemp(prefix="fdops-", dir=chk.work)
     log = os.path.join(chk.work, "log_%s_%s.ndjson" % (scen, tag))
     rules = []
-    if k is not None:
+    if k is not None and value is not None:
+        rules.append("win=%s,task=1,src=exe,k=%d,ret=%d,mode=s" % (scen, k, value))
+    elif k is not None:
         rules.append("win=%s,task=1,src=exe,k=%d,ret=-%d" % (scen, k, errno))
     try:
         rc, so, se, ev = SJ.run_traced([os.path.join(bindir, "fdops"), "run", scen, root], log, rules=rules, timeout=25)
@@ -298,6 +304,11 @@ def run(tier):
                         names += [n for n in COMMON if n not in names]
                 for n in names:
                     plan.append({"scenario": s, "k": c["k"], "errno": errno_nr(n), "errname": n, "call": c["name"], "phase": c["phase"]})
+                if c["phase"] == "op":
+                    for val in VALUE_FAULTS.get(c["name"], []):
+                        if val != c["ret"]:
+                            plan.append({"scenario": s, "k": c["k"], "errno": 0, "errname": "=%d" % val, "value": val,
+                                         "call": c["name"], "phase": "op"})
     if len(dry) < 40:
         raise core.ToolError("only %d of %d scenarios complete without faults: %s" % (len(dry), len(scens), json.dumps(skipped[:5])))
     scens = [s for s in scens if s in dry]
@@ -305,6 +316,8 @@ def run(tier):
     def exec_item(it):
         if it["k"] is None:
             return dry[it["scenario"]][0]
+        if "value" in it:
+            return run_one(chk, bindir, it["scenario"], it["k"], 0, "k%d_v%d" % (it["k"], it["value"]), value=it["value"])
         return run_one(chk, bindir, it["scenario"], it["k"], it["errno"], "k%d_e%d" % (it["k"], it["errno"]))
     with ThreadPoolExecutor(max_workers=8) as ex:
         runs = list(ex.map(exec_item, plan))
@@ -363,7 +376,7 @@ def run(tier):
         if w["drift"]:
             drift.append({"scenario": it["scenario"], "k": it["k"], "model_open": w["open"]})
         if it["k"] is not None and injected is not None:
-            nontrivial.add((it["scenario"], it["k"], it["errno"]))
+            nontrivial.add((it["scenario"], it["k"], it["errname"]))
         fname, nth = (None, 0) if it["k"] is None else nth_of(dry[it["scenario"]][2], it["k"])
         for kind in bad:
             sig = {"scenario": it["scenario"], "kind": kind, "fail_call": fname or "none", "fail_nth": nth,
@@ -371,10 +384,10 @@ def run(tier):
             ret = [e for e in evs if e["ev"] == "return"][0]
             chk.violate(sig, "%s: %s with %s -> result %s, table %s -> %s at return -> %s after drop (handed %s)" % (
                 it["scenario"], kind,
-                "no fault" if it["k"] is None else "call %d (%s #%d%s) failing with %s" % (
+                "no fault" if it["k"] is None else "call %d (%s #%d%s) answering %s" % (
                     it["k"], fname, nth, ", while the result is dropped" if it.get("phase") == "drop" else "", it["errname"]),
                 ret["res"], evs[0]["pre"], ret["snap"], evs[-1]["snap"], ret["handed"]),
-                {"scenario": it["scenario"], "k": it["k"], "errno": it["errno"], "events": evs})
+                {"scenario": it["scenario"], "k": it["k"], "errno": it["errno"], "value": it.get("value"), "events": evs})
         if n % 37 == 0:
             chk.sample({"scenario": it["scenario"], "fail_call_index": it["k"], "fail_call": fname, "errno": it.get("errname"),
                         "calls": [c["name"] for c in calls], "broken": bad})
@@ -423,7 +436,7 @@ def replay(path):
     chk = core.Check("C12", "quick", "model_checking")
     SJ.build_tracer()
     bindir = core.cargo_build(bins=["fdops"])
-    r = run_one(chk, bindir, rp["scenario"], rp["k"], rp["errno"], "replay")
+    r = run_one(chk, bindir, rp["scenario"], rp["k"], rp["errno"], "replay", value=rp.get("value"))
     evs, calls, status, injected, fm = window(r)
     print("replayed:", rp["scenario"], "k=%s errno=%s" % (rp["k"], rp["errno"]), "status", status)
     for e in evs:
